@@ -1058,9 +1058,27 @@ func c09RunCtlScenario(r *VRand, st *VStream, stat *VStats, routing *componentdn
 				continue
 			}
 			before := w.ncalls()
+			keyPrefix := fmt.Sprintf("%d.%d.%d>", c09NameTok(c.n, c.route), c.qtype, c.scope())
+			spellOf := func() int {
+				for _, e := range strings.Split(w.cacheStr(), ",") {
+					if strings.HasPrefix(e, keyPrefix) {
+						var n, sp, qt int
+						fmt.Sscanf(strings.TrimPrefix(e, keyPrefix), "%d.%d.%d/", &n, &sp, &qt)
+						return sp
+					}
+				}
+				return -1
+			}
+			spBefore := spellOf()
 			w.start(c)
 			synctest.Wait()
 			w.poll()
+			if spAfter := spellOf(); c.fin && spBefore >= 0 && spAfter >= 0 && spAfter != spBefore {
+				// the hit re-packed the entry (TTL drift > 15 s of virtual time) with this request's qname
+				stat.Inc("ctl.op.respell")
+				st.Emit(fmt.Sprintf("C respell %d %d %d %d", c09NameTok(c.n, c.route), c.qtype, c.scope(), spAfter),
+					fmt.Sprintf("pc=none out=- calls=%d cache=%s", len(flights), w.cacheStr()))
+			}
 			if c.fin {
 				c.rep = true
 				stat.Inc("ctl.arrive.answered-at-once")
